@@ -238,3 +238,10 @@ Lemma aes_encrypt_block_length key blk : length (aes_encrypt_block key blk) = 16
 Proof. apply bytes_of_st16_length. Qed.
 Lemma aes_decrypt_block_length key blk : length (aes_decrypt_block key blk) = 16%nat.
 Proof. apply bytes_of_st16_length. Qed.
+
+Lemma bytes_of_st16_ok s : bytes_ok (bytes_of_st16 s) = true.
+Proof. apply bytes_of_ints_ok. Qed.
+Lemma aes_encrypt_block_ks_ok ks blk : bytes_ok (aes_encrypt_block_ks ks blk) = true.
+Proof. apply bytes_of_ints_ok. Qed.
+Lemma aes_decrypt_block_ks_ok ks blk : bytes_ok (aes_decrypt_block_ks ks blk) = true.
+Proof. apply bytes_of_ints_ok. Qed.
